@@ -163,7 +163,9 @@ func c19Work(w *Worker) {
 	}
 }
 
-const sentinel = "SENTINEL: this file existed before yaccgo ran\n"
+// the file that exists before yaccgo runs is LONGER than anything yaccgo
+// writes here, so an output that is written over it without truncation shows
+var sentinel = strings.Repeat("SENTINEL: this file existed before yaccgo ran\n", 700)
 
 func c19Eval(w *Worker, c *c19Case, cli bool) {
 	w.Count("evaluations", 1)
@@ -266,7 +268,7 @@ func c19CLI(w *Worker, c *c19Case, expectFail bool, bad func(kind, msg string)) 
 	if nativeBin == "" {
 		bin := filepath.Join(w.Scratch, fmt.Sprintf("yaccgo-native-%d", os.Getpid()))
 		cmd := exec.Command("go", "build", "-o", bin, "./yaccgo")
-		cmd.Dir = "/repo"
+		cmd.Dir = repoDir()
 		if out, err := cmd.CombinedOutput(); err != nil {
 			w.Note("INTERNAL: cannot build the native CLI: " + string(out))
 			return
